@@ -40,14 +40,14 @@ TWINS = {
 
 # batches that are wired into checks (a batch under construction is simply not listed here yet)
 READY = ['core', 'eslice', 'op_eval', 'cfi_lookup', 'cfi_uctx', 'cfi_uctx_link', 'line_hdr', 'attrs', 'units', 'dwarf_ranges', 'index', 'relocate',
-         'conv', 'filter', 'wcore', 'wreloc', 'wop', 'wlists', 'wunit', 'wunit_layout', 'wcfi', 'wline', 'wline_insn', 'leb', 'macros', 'names', 'bases', 'wabbrev', 'filter_reserve', 'wline_prog', 'conv_attrs', 'conv_expr', 'wlists_add', 'wunit_tree']
+         'conv', 'filter', 'wcore', 'wreloc', 'wop', 'wlists', 'wunit', 'wunit_layout', 'wcfi', 'wline', 'wline_insn', 'leb', 'macros', 'names', 'bases', 'wabbrev', 'filter_reserve', 'wline_prog', 'conv_attrs', 'conv_expr', 'wlists_add', 'wunit_tree', 'dwp']
 # batch -> batches whose items it re-verifies completely (so the smaller one need not run as well)
 SUPERSEDES = {'wline_prog': ['wline_insn'], 'op_eval': ['op'], 'dwarf_ranges': ['lists'], 'cfi_uctx_link': ['cfi_unwind'], 'line_hdr': ['line'], 'cfi_lookup': ['cfi_entries']}
 # tags that only quote another property's vocabulary inside a batch (not obligations of that property)
-IGNORE = {('line_hdr', 'C03'), ('wline', 'C12'), ('filter', 'C01'), ('filter', 'C07'), ('wunit', 'C03'), ('wunit', 'C15'), ('conv', 'C05'), ('index', 'C09'), ('macros', 'C10'), ('names', 'C10'), ('wunit_layout', 'C16'), ('bases', 'C10'), ('wabbrev', 'C02'), ('filter_reserve', 'C02'), ('conv_attrs', 'C19'), ('conv_expr', 'C07')}
+IGNORE = {('line_hdr', 'C03'), ('wline', 'C12'), ('filter', 'C01'), ('filter', 'C07'), ('wunit', 'C03'), ('wunit', 'C15'), ('conv', 'C05'), ('index', 'C09'), ('macros', 'C10'), ('names', 'C10'), ('wunit_layout', 'C16'), ('bases', 'C10'), ('wabbrev', 'C02'), ('filter_reserve', 'C02'), ('conv_attrs', 'C19'), ('conv_expr', 'C07'), ('dwp', 'C10')}
 
 ND = {
-    'C01': 'entry points not extracted (MacroString::string, Dwarf/DwarfSections loaders, DwarfPackage, ConvertUnit*), stack depth '
+    'C01': 'entry points not extracted (MacroString::string, Dwarf/DwarfSections loaders, DwarfPackage::load, ConvertUnit::convert*), stack depth '
            '(Verus models an unbounded stack), EndianReader over user buffer types, wall-clock time; see DESIGN.md 6 C01 and 11.',
     'C02': 'whole-forest equality of the five traversal styles as a statement about sequences (only the step contracts are decided); '
            'validity of DW_AT_sibling targets is an input well-formedness assumption; llvm-dwarfdump agreement.',
@@ -72,7 +72,7 @@ ND = {
     'C14': 'CIE de-duplication (IndexSet), whole-table round trip.',
     'C15': 'Expression::write body (iterator adapters: assumed contract), evaluation equivalence (follows from decode equality).',
     'C16': 'RangeListTable::get / LocationListTable::get (IndexSet indexing; add is decided in batch wlists_add over a model of IndexSet::insert_full), end-to-end attr_ranges round trip.',
-    'C17': 'NameBucketIter/NameHashIter beyond batch index, case_folding_djb_hash, name_string, DwarfPackage assembly, loader wiring (closures), dwp corpus.',
+    'C17': 'NameBucketIter/NameHashIter beyond batch index, case_folding_djb_hash, name_string, DwarfPackage::load/from_sections and loader wiring (closures; the assembly DwarfPackage::{sections, cu_sections, tu_sections, find_cu, find_tu} and Section::dwp_range are decided in batch dwp), distinctness of a row\'s section identifiers (an input property), dwp corpus.',
     'C18': 'that no parser/writer outside the extracted set uses a plain integer primitive for a relocatable field; the '
            'event-to-lowered refinement argument of the relocating writer is stated, not mechanised.',
     'C19': 'FilterUnit::read_entry parent stack, the unfiltered ConvertUnitSection::new and the split-unit path, that FilterUnitSection establishes the section well-formedness new_with_filter requires, ConvertUnit::{read_entry, add_entry}, '
